@@ -150,17 +150,23 @@ def name_scheme(tree: ast.Module) -> str:
 
 
 def refuses_duplicates(tree: ast.Module) -> bool:
-    """`parallelise` raises ValueError inside `if cache is not None:` when `len(set(keys)) != len(keys)`"""
+    """`parallelise` raises inside `if cache is not None:` when `len(set(T)) != len(T)` for `T = [k for k, _ in inputs]`
+    (whatever the local list is called)"""
     fn = next((n for n in tree.body if isinstance(n, ast.FunctionDef) and n.name == "parallelise"), None)
     if fn is None:
         raise Unsupported("parallelise not found")
     for st in fn.body:
         if isinstance(st, ast.If) and ast.unparse(st.test) == "cache is not None":
-            src = [ast.unparse(x) for x in st.body]
-            for i, x in enumerate(st.body):
-                if (isinstance(x, ast.If) and ast.unparse(x.test) == "len(set(keys)) != len(keys)"
-                        and any(isinstance(y, ast.Raise) for y in x.body)
-                        and "keys = [k for k, _ in inputs]" in src[:i]):
+            lists = set()
+            for x in st.body:
+                if (isinstance(x, ast.Assign) and len(x.targets) == 1 and isinstance(x.targets[0], ast.Name)
+                        and isinstance(x.value, ast.ListComp) and len(x.value.generators) == 1
+                        and ast.unparse(x.value.generators[0].iter) == "inputs" and not x.value.generators[0].ifs
+                        and isinstance(x.value.generators[0].target, ast.Tuple) and len(x.value.generators[0].target.elts) == 2
+                        and ast.unparse(x.value.elt) == ast.unparse(x.value.generators[0].target.elts[0])):
+                    lists.add(x.targets[0].id)
+                elif (isinstance(x, ast.If) and any(isinstance(y, ast.Raise) for y in x.body)
+                      and any(ast.unparse(x.test) == f"len(set({t})) != len({t})" for t in lists)):
                     return True
             return False
     raise Unsupported("parallelise has no `if cache is not None:` block")
